@@ -401,5 +401,5 @@ package proto
 
 //@ contract (w *Writer) Flush() (n, err) props(C02,C04,C09,C14)
 //@   requires w != nil && wRI(w) && w.conn != nil
-//@   modifies w.bufOffset, w.needCut, w.vec, w.buf.Buf, contents(w.vec)
+//@   modifies w.bufOffset, w.needCut, w.vec, w.buf.Buf, contents(w.vec), all(w.conn)
 //@   ensures w.bufOffset == 0 && len(w.vec) == 0 && len(w.buf.Buf) == 0 {reset-always}
